@@ -37,6 +37,8 @@ def gen(rng, tier):
         if r < 0.45:
             c = cc.gen_case(rng, lim=lim, nobj=n)
             c['objs'] = exotic(rng, c['objs'])
+            if rng.random() < 0.08 and not any(nm in ('self', 'rest') for nm, _ in c['locals']):
+                c['recursion'] = True        # the tracepoint is hit inside a recursion through an inherited method
             yield c
         elif r < 0.75:
             c = cc.gen_case(rng, lim=lim, nactions=rng.randint(2, 4))
@@ -67,8 +69,14 @@ def gen(rng, tier):
             yield c
         elif r < 0.90:
             c = cc.gen_case(rng, lim=lim, mock_frames=rng.randint(1, 3), frame_type=rng.choice(['all_frame', 'no_frame']),
-                            nactions=rng.randint(1, 2))
+                            nactions=rng.randint(1, 3))
             c['objs'] = exotic(rng, c['objs'])
+            if len(c['actions']) > 1:
+                # tracepoints on one line that differ in frame_type: each decides for itself which frames carry variables
+                for a in c['actions']:
+                    a['frame_type'] = rng.choice(['single_frame', 'all_frame', 'no_frame'])
+                c['solo'] = True
+                c['one_trigger'] = rng.random() < 0.3
             yield c
         elif r < 0.97:
             yield cc.gen_case(rng, lim=lim, nobj=rng.choice([3, 6, 10, 16]), hostile=0.15, stream='hostile',
@@ -96,6 +104,16 @@ def corpus():
                 'frame_type': 'single_frame', 'stream': 'corpus', 'actions': [{'limits': {}, 'watches': ['h', 'h']}]}
                for k in cc.HOSTILE_KEYS]
     return hostile + [
+        {'objs': [{'t': 'int', 'v': 5}], 'locals': [['q', 0]], 'recursion': True, 'frame_type': 'single_frame',
+         'stream': 'corpus', 'actions': [{'limits': {}}]},
+        # tracepoints on one line with different frame types, on a stack of two frames
+        {'objs': [{'t': 'int', 'v': 5}, {'t': 'str', 'v': 'outer'}], 'locals': [['q', 0]], 'mock': [[['q', 0]], [['o', 1]]],
+         'frame_type': 'single_frame', 'stream': 'corpus', 'solo': True,
+         'actions': [{'limits': {}, 'frame_type': 'no_frame'}, {'limits': {}, 'frame_type': 'single_frame'},
+                     {'limits': {}, 'frame_type': 'all_frame'}]},
+        {'objs': [{'t': 'int', 'v': 5}, {'t': 'str', 'v': 'outer'}], 'locals': [['q', 0]], 'mock': [[['q', 0]], [['o', 1]]],
+         'frame_type': 'single_frame', 'stream': 'corpus', 'solo': True,
+         'actions': [{'limits': {}, 'frame_type': 'single_frame'}, {'limits': {}, 'frame_type': 'all_frame'}]},
         # C06-B: a condition whose value has no text switches off that tracepoint only
         {'objs': [{'t': 'atom', 'k': 'str_raises'}, {'t': 'int', 'v': 5}], 'locals': [['cnd', 0], ['q', 1]],
          'frame_type': 'single_frame', 'stream': 'corpus', 'solo': True,
